@@ -1,7 +1,547 @@
-/- C19 — placeholder while the correspondence is brought up; theorems follow. -/
-import StathamModel.Py.Module
+/-
+  C19 — generated type annotations are sound for every value a model can hold.
+
+  `C19_element_sound`: for every element tree satisfying `Hyp`, every environment and every passed value, if
+  the call returns a value then that value belongs to the element's annotation (`annot`), read as in
+  Py/Typing.lean, and is never the not-passed marker.  `C19_property_sound` lifts it to the property wrapper.
+
+  `Hyp` (decidable, checked per node) says: every `AllOf` is annotated with its first member's annotation or
+  `Any` (its complement is the known finding C19-allof-annotation, `counter_allOf`); member annotations of one
+  composition / tuple that print alike are alike (fails only when a model class is named like a typing word);
+  an `Array` has `items`.
+-/
+import StathamModel.Py.Typing
+import StathamModel.Lemmas.Results
+import StathamModel.Lemmas.VAlg
+import StathamModel.Props.C04
 import StathamModel.Tie
 namespace Statham.C19
 open Statham
-example : (propAnnot { name := "a" } (Elem.leaf .string)).show = "Maybe[str]" := by decide +kernel
+
+/-- on a passed value the call only returns values of type `t`, and never the not-passed marker -/
+def P (f : Call) (t : PyType) : Prop := ∀ v r, f (.val v) = .ok r → r.hasType t = true ∧ r.isNP = false
+
+/-- annotations that print alike are alike -/
+def NoTwins (ts : List PyType) : Prop := ∀ a ∈ ts, ∀ b ∈ ts, a.show = b.show → a = b
+
+/-! ### shape of successful results -/
+
+theorem guard_ok {g : V} {x : Res} {r : RVal} (h : Res.guard g x = .ok r) : g = .pass ∧ x = .ok r := by
+  cases g <;> cases x <;> simp [Res.guard] at h ⊢
+  exact h
+
+theorem validators_typeOk {env : Env} {c : Cls} {kw : Kw} {sub : Sub} {v : JVal}
+    (h : validators Res.verdict env c kw sub v = .pass) : typeOk c v = true := by
+  unfold validators at h
+  exact V.ofBool_eq_pass.mp (V.and_eq_pass.mp h).1
+
+theorem scalarConv_notNP (v : JVal) : (scalarConv v).isNP = false := by cases v <;> rfl
+
+theorem trivialConv_notNP (v : JVal) : (trivialConv v).isNP = false := by cases v <;> rfl
+
+theorem trivial_P : P trivialCall .any := by
+  intro v r h
+  simp only [trivialCall, Res.ok.injEq] at h
+  subst h
+  simp [RVal.hasType, trivialConv_notNP]
+
+theorem nothing_never (v : JVal) (r : RVal) : nothingCall (.val v) ≠ .ok r := by simp [nothingCall]
+
+theorem collect_arr {rs : List Res} {r : RVal} (h : collect rs = .ok r) : ∃ xs, r = .arr xs := by
+  rcases collect_shape rs with hs | hs | ⟨ys, hs⟩
+  · rw [hs] at h; cases h
+  · rw [hs] at h; cases h
+  · rw [hs] at h; exact ⟨ys, (Res.ok.inj h).symm⟩
+
+theorem propsCall_anon {env : Env} {kw : Kw} {sub : Sub} {kvs : List (String × JVal)} {r : RVal}
+    (h : propsCall env kw sub kvs = .ok r) : ∃ l, r = .anon l := by
+  simp only [propsCall] at h
+  rcases collectKV_shape (propsOuts resAlg env kw sub kvs) with hs | hs | ⟨ys, hs⟩
+  · simp only [hs] at h; cases h
+  · simp only [hs] at h; cases h
+  · simp only [hs] at h; exact ⟨_, (Res.ok.inj h).symm⟩
+
+/-! ### deduplication by printed form, under `NoTwins` -/
+
+theorem mem_dedupe {t : PyType} {ts : List PyType} (hm : t ∈ ts) (hn : NoTwins ts) : t ∈ dedupeTypes ts := by
+  induction ts with
+  | nil => cases hm
+  | cons u us ih =>
+    rw [dedupeTypes]
+    rcases List.mem_cons.mp hm with rfl | hm'
+    · exact List.mem_cons_self ..
+    · by_cases e : t.show = u.show
+      · have : t = u := hn t hm u (List.mem_cons_self ..) e
+        rw [this]; exact List.mem_cons_self ..
+      · refine List.mem_cons_of_mem _ (List.mem_filter.mpr ⟨ih hm' ?_, by simpa using e⟩)
+        intro a ha b hb
+        exact hn a (List.mem_cons_of_mem _ ha) b (List.mem_cons_of_mem _ hb)
+
+theorem dedupe_subset {t : PyType} {ts : List PyType} (h : t ∈ dedupeTypes ts) : t ∈ ts := by
+  induction ts with
+  | nil => simp [dedupeTypes] at h
+  | cons u us ih =>
+    rw [dedupeTypes] at h
+    rcases List.mem_cons.mp h with rfl | h
+    · exact List.mem_cons_self ..
+    · exact List.mem_cons_of_mem _ (ih (List.mem_filter.mp h).1)
+
+/-- a value of one member's type has the union annotation -/
+theorem union_sound {r : RVal} {t : PyType} {ts : List PyType} (hm : t ∈ ts) (hn : NoTwins ts)
+    (ht : r.hasType t = true) (hnp : r.isNP = false) : r.hasType (unionAnnot ts) = true := by
+  unfold unionAnnot
+  have hd := mem_dedupe hm hn
+  match hdd : dedupeTypes ts with
+  | [] => rw [hdd] at hd; cases hd
+  | [u] =>
+    rw [hdd] at hd
+    have : t = u := by simpa using hd
+    simp only
+    rw [← this]; exact ht
+  | u :: w :: rest =>
+    simp only
+    split
+    · simp [RVal.hasType, hnp]
+    · rw [← hdd]
+      simp only [RVal.hasType, hnp, Bool.not_false, Bool.true_and]
+      exact hasTypeAny_of_mem hd ht
+
+/-- a list whose elements all have one of the item annotations has the list annotation -/
+theorem list_sound {rs : List RVal} {anns : List PyType}
+    (h : ∀ x ∈ rs, x.isNP = false ∧ (anns = [] ∨ anns = [.any] ∨ ∃ t ∈ anns, x.hasType t = true)) :
+    (RVal.arr rs).hasType (listAnnot anns) = true := by
+  unfold listAnnot
+  match anns with
+  | [] => simp only [RVal.hasType]
+  | [t] =>
+    simp only [RVal.hasType, List.all_eq_true]
+    intro x hx
+    rcases (h x hx).2 with he | he | ⟨u, hu, hxu⟩
+    · cases he
+    · have : t = .any := by simpa using he
+      rw [this]; simp [RVal.hasType, (h x hx).1]
+    · have : u = t := by simpa using hu
+      rw [← this]; exact hxu
+  | t :: u :: rest =>
+    simp only [RVal.hasType, List.all_eq_true]
+    intro x hx
+    rcases (h x hx).2 with he | he | ⟨w, hw, hxw⟩
+    · cases he
+    · cases he
+    · simp only [(h x hx).1, Bool.not_false, Bool.true_and]
+      exact hasTypeAny_of_mem hw hxw
+
+/-! ### the hypothesis, node by node -/
+
+/-- what the theorem asks of one node, given the annotations of its children -/
+def HypNode (c : Cls) (kw : Kw) (items : List PyType) (addItems : Option PyType) (elements : List PyType) : Prop :=
+  (c = .array → kw.itemsKind ≠ .none ∧ NoTwins (items ++ addItems.toList)) ∧
+  ((c = .anyOf ∨ c = .oneOf) → NoTwins elements) ∧
+  (c = .allOf → allOfAnnot elements = elements.head?.getD .any ∨ allOfAnnot elements = .any)
+
+mutual
+def Hyp : Elem → Prop
+  | .mk c kw items addI _ _ _ _ _ _ els =>
+    HypNode c kw (annotList items) (annotOpt addI) (annotList els) ∧ HypL items ∧ HypO addI ∧ HypL els
+def HypO : Option Elem → Prop
+  | none => True
+  | some e => Hyp e
+def HypL : List Elem → Prop
+  | [] => True
+  | e :: es => Hyp e ∧ HypL es
+end
+
+/-! ### one node -/
+
+/-- the additional-items call and its annotation agree -/
+def AddP (a : Option (Bool × Call)) (t : Option PyType) : Prop :=
+  match a, t with
+  | some (_, f), some t => P f t
+  | none, none => True
+  | _, _ => False
+
+theorem itemCall_typed {kw : Kw} {sub : Sub} {itemsT : List PyType} {addT : Option PyType}
+    (hi : All2 P sub.items itemsT) (ha : AddP sub.addItems addT) (hk : kw.itemsKind ≠ .none)
+    (hn : NoTwins (itemsT ++ addT.toList))
+    (idx : Nat) (v : JVal) (r : RVal) (h : itemCall resAlg kw sub idx (.val v) = .ok r) :
+    r.isNP = false ∧
+      (itemAnnots kw.itemsKind kw.addItemsB itemsT addT = [] ∨
+       itemAnnots kw.itemsKind kw.addItemsB itemsT addT = [.any] ∨
+       ∃ t ∈ itemAnnots kw.itemsKind kw.addItemsB itemsT addT, r.hasType t = true) := by
+  unfold itemCall at h
+  generalize hsi : sub.items = its at hi h
+  cases hkind : kw.itemsKind with
+  | none => exact absurd hkind hk
+  | single =>
+    rw [hkind] at h
+    simp only at h
+    cases hi with
+    | nil =>
+      simp only [List.head?_nil, Option.getD_none] at h
+      exact ⟨(trivial_P v r h).2, Or.inl (by simp [itemAnnots])⟩
+    | @cons f t fs ts hft _ =>
+      simp only [List.head?_cons, Option.getD_some] at h
+      have := hft v r h
+      exact ⟨this.2, Or.inr (Or.inr ⟨t, by simp [itemAnnots], this.1⟩)⟩
+  | tuple =>
+    rw [hkind] at h
+    simp only at h
+    -- which element answered: the positional one, or the additional-items element
+    have key : r.isNP = false ∧ ((∃ t ∈ itemsT, r.hasType t = true) ∨ (∃ t, addT = some t ∧ r.hasType t = true) ∨
+        (sub.addItems = none ∧ kw.addItemsB = true)) := by
+      cases hget : its[idx]? with
+      | some f =>
+        rw [hget] at h
+        simp only [Option.getD_some] at h
+        obtain ⟨t, ht, hP⟩ := hi.exists_right (List.mem_of_getElem? hget)
+        have := hP v r h
+        exact ⟨this.2, Or.inl ⟨t, ht, this.1⟩⟩
+      | none =>
+        rw [hget] at h
+        simp only [Option.getD_none] at h
+        unfold additionalItemCall at h
+        cases hadd : sub.addItems with
+        | some p =>
+          obtain ⟨b, f⟩ := p
+          rw [hadd] at h ha
+          simp only at h
+          cases addT with
+          | none => exact absurd ha (by simp [AddP])
+          | some t =>
+            have := (show P f t from ha) v r h
+            exact ⟨this.2, Or.inr (Or.inl ⟨t, rfl, this.1⟩)⟩
+        | none =>
+          rw [hadd] at h
+          simp only at h
+          by_cases hb : kw.addItemsB = true
+          · simp only [hb, if_true] at h
+            exact ⟨(trivial_P v r h).2, Or.inr (Or.inr ⟨rfl, hb⟩)⟩
+          · simp only [hb, Bool.false_eq_true, if_false] at h
+            exact absurd h (nothing_never v r)
+    obtain ⟨hnp, hcases⟩ := key
+    refine ⟨hnp, ?_⟩
+    -- now read off `itemAnnots` for the tuple form
+    unfold itemAnnots
+    simp only
+    cases addT with
+    | none =>
+      have hn' : NoTwins itemsT := by simpa using hn
+      by_cases hb : kw.addItemsB = true
+      · simp [hb]
+      · simp only [hb, Bool.false_eq_true, if_false]
+        rcases hcases with ⟨t, ht, hrt⟩ | ⟨t, he, _⟩ | ⟨_, hb'⟩
+        · by_cases hany : itemsT.any isAnyText = true
+          · simp [hany]
+          · simp only [hany, Bool.false_eq_true, if_false]
+            exact Or.inr (Or.inr ⟨t, mem_dedupe ht hn', hrt⟩)
+        · cases he
+        · exact absurd hb' hb
+    | some a =>
+      have hn' : NoTwins (itemsT ++ [a]) := by simpa using hn
+      simp only
+      by_cases hany : (itemsT ++ [a]).any isAnyText = true
+      · simp [hany]
+      · simp only [hany, Bool.false_eq_true, if_false]
+        rcases hcases with ⟨t, ht, hrt⟩ | ⟨t, he, hrt⟩ | ⟨hnone, _⟩
+        · exact Or.inr (Or.inr ⟨t, mem_dedupe (List.mem_append_left _ ht) hn', hrt⟩)
+        · have : t = a := (Option.some.inj he).symm
+          subst this
+          exact Or.inr (Or.inr ⟨t, mem_dedupe (List.mem_append_right _ (List.mem_singleton.mpr rfl)) hn', hrt⟩)
+        · -- additional items present in the annotation but absent in the call: excluded by `AddP`
+          rw [hnone] at ha
+          exact absurd ha (by simp [AddP])
+
+/-- the result of an untyped construction (arrays through `Items`, objects through `Properties`, scalars as they are)
+    is never the marker -/
+theorem generic_construct_notNP {env : Env} {kw : Kw} {sub : Sub} {v : JVal} {r : RVal}
+    (h : (match v with
+      | .arr xs => itemsCall kw sub xs
+      | .obj kvs => propsCall env kw sub kvs
+      | v => Res.ok (scalarConv v)) = .ok r) : r.isNP = false := by
+  cases v with
+  | arr xs => obtain ⟨ys, rfl⟩ := collect_arr h; rfl
+  | obj kvs => obtain ⟨l, rfl⟩ := propsCall_anon h; rfl
+  | null => simp only [Res.ok.injEq] at h; subst h; rfl
+  | bool b => simp only [Res.ok.injEq] at h; subst h; rfl
+  | num n => simp only [Res.ok.injEq] at h; subst h; rfl
+  | str s => simp only [Res.ok.injEq] at h; subst h; rfl
+
+theorem firstOk_head_of_all {rs : List Res} {r : RVal} (hf : firstOk rs = some r) (hc : anyCrash rs = false)
+    (hr : anyReject rs = false) : rs.head? = some (.ok r) := by
+  cases rs with
+  | nil => cases hf
+  | cons x xs =>
+    cases x with
+    | ok y => simp only [firstOk, Option.some.injEq] at hf; subst hf; rfl
+    | reject => simp [anyReject] at hr
+    | crash => simp [anyCrash] at hc
+
+/-- **One node**: if the children's calls are typed by the children's annotations, the node's call is typed by
+    the node's annotation. -/
+theorem core_typed (env : Env) (c : Cls) (kw : Kw) (sub : Sub) (itemsT : List PyType) (addT : Option PyType)
+    (elsT : List PyType) (hi : All2 P sub.items itemsT) (ha : AddP sub.addItems addT)
+    (he : All2 P sub.elements elsT) (hyp : HypNode c kw itemsT addT elsT) :
+    P (callCore env c kw sub) (annotCore c kw itemsT addT elsT) := by
+  intro v r h
+  simp only [callCore, create] at h
+  obtain ⟨hv, hc⟩ := guard_ok h
+  have htype := validators_typeOk hv
+  -- members of a composition
+  have member : ∀ (mode : Cls), attempt mode (sub.elements.map fun f => f (.val v)) = .ok r →
+      ∃ t ∈ elsT, r.hasType t = true ∧ r.isNP = false := by
+    intro mode hm
+    have hmem := C04.firstOk_mem (C04.attempt_first hm)
+    obtain ⟨f, hf, hfr⟩ := List.mem_map.mp hmem
+    obtain ⟨t, ht, hP⟩ := he.exists_right hf
+    exact ⟨t, ht, hP v r hfr⟩
+  cases c with
+  | element =>
+    simp only [construct] at hc
+    exact ⟨by simp [annotCore, RVal.hasType, generic_construct_notNP hc], generic_construct_notNP hc⟩
+  | not =>
+    simp only [construct] at hc
+    have hnp : r.isNP = false := by
+      cases hs : sub.elements with
+      | nil => rw [hs] at hc; cases hc
+      | cons f fs =>
+        rw [hs] at hc
+        cases fs with
+        | cons g gs => cases hc
+        | nil =>
+          simp only at hc
+          cases hf : f (.val v) with
+          | ok x => rw [hf] at hc; cases hc
+          | crash => rw [hf] at hc; cases hc
+          | reject => rw [hf] at hc; simp only [Res.ok.injEq] at hc; subst hc; rfl
+    exact ⟨by simp [annotCore, RVal.hasType, hnp], hnp⟩
+  | nothing => simp [typeOk] at htype
+  | null =>
+    cases v <;> simp [typeOk] at htype
+    simp only [construct, scalarConv, Res.ok.injEq] at hc
+    subst hc
+    exact ⟨rfl, rfl⟩
+  | boolean =>
+    cases v <;> simp [typeOk] at htype
+    simp only [construct, scalarConv, Res.ok.injEq] at hc
+    subst hc
+    exact ⟨rfl, rfl⟩
+  | string =>
+    cases v <;> simp [typeOk] at htype
+    simp only [construct, scalarConv, Res.ok.injEq] at hc
+    subst hc
+    exact ⟨rfl, rfl⟩
+  | integer =>
+    cases v with
+    | num n =>
+      cases n with
+      | int i =>
+        simp only [construct, scalarConv, Res.ok.injEq] at hc
+        subst hc
+        exact ⟨rfl, rfl⟩
+      | flt a b => simp [typeOk] at htype
+    | _ => simp [typeOk] at htype
+  | number =>
+    cases v with
+    | num n =>
+      simp only [construct] at hc
+      cases hd : asDouble n with
+      | none => rw [hd] at hc; cases hc
+      | some d =>
+        rw [hd] at hc
+        simp only [Res.ok.injEq] at hc
+        subst hc
+        exact ⟨rfl, rfl⟩
+    | _ => simp [typeOk] at htype
+  | object n =>
+    cases v with
+    | obj kvs =>
+      simp only [construct] at hc
+      cases hp : propsCall env kw sub kvs with
+      | ok x =>
+        obtain ⟨l, rfl⟩ := propsCall_anon hp
+        rw [hp] at hc
+        simp only [Res.ok.injEq] at hc
+        subst hc
+        exact ⟨by simp [annotCore, RVal.hasType], rfl⟩
+      | reject => rw [hp] at hc; cases hc
+      | crash => rw [hp] at hc; cases hc
+    | _ => simp [typeOk] at htype
+  | array =>
+    cases v with
+    | arr xs =>
+      simp only [construct] at hc
+      obtain ⟨rs, rfl⟩ := collect_arr hc
+      refine ⟨?_, rfl⟩
+      have hitems := C04.array_items hc
+      obtain ⟨hk, hn⟩ := hyp.1 rfl
+      simp only [annotCore]
+      apply list_sound
+      intro x hx
+      obtain ⟨i, hi', hxi⟩ := List.getElem_of_mem hx
+      have hlt : i < xs.length := by rw [← hitems.1]; exact hi'
+      obtain ⟨y, hy, hcall⟩ := hitems.2 i hlt
+      have : y = x := by
+        rw [List.getElem?_eq_getElem hi'] at hy
+        rw [← hxi]; exact (Option.some.inj hy).symm
+      subst this
+      exact itemCall_typed hi ha hk hn i _ _ hcall
+    | _ => simp [typeOk] at htype
+  | anyOf =>
+    simp only [construct] at hc
+    obtain ⟨t, ht, hrt, hnp⟩ := member .anyOf hc
+    exact ⟨union_sound ht (hyp.2.1 (Or.inl rfl)) hrt hnp, hnp⟩
+  | oneOf =>
+    simp only [construct] at hc
+    obtain ⟨t, ht, hrt, hnp⟩ := member .oneOf hc
+    exact ⟨union_sound ht (hyp.2.1 (Or.inr rfl)) hrt hnp, hnp⟩
+  | allOf =>
+    simp only [construct] at hc
+    -- every member answered; the first one's result is returned
+    have hfirst := C04.attempt_first hc
+    have hcr : anyCrash (sub.elements.map fun f => f (.val v)) = false ∧
+        anyReject (sub.elements.map fun f => f (.val v)) = false := by
+      unfold attempt at hc
+      by_cases h1 : anyCrash (sub.elements.map fun f => f (.val v)) = true
+      · simp [h1] at hc
+      · simp only [h1, Bool.false_eq_true, if_false, hfirst] at hc
+        by_cases h2 : anyReject (sub.elements.map fun f => f (.val v)) = true
+        · simp [h2] at hc
+        · exact ⟨by simpa using h1, by simpa using h2⟩
+    have hhead := firstOk_head_of_all hfirst hcr.1 hcr.2
+    generalize hse : sub.elements = els at he hhead
+    cases he with
+    | nil => simp at hhead
+    | @cons f t fs ts hft _ =>
+      simp only [List.map_cons, List.head?_cons, Option.some.injEq] at hhead
+      have := hft v r hhead
+      refine ⟨?_, this.2⟩
+      simp only [annotCore]
+      rcases hyp.2.2 rfl with e | e
+      · rw [e]; simpa using this.1
+      · rw [e]; simp [RVal.hasType, this.2]
+
+/-! ### the whole tree -/
+
+mutual
+theorem call_typed (env : Env) : ∀ (e : Elem), Hyp e → P (Elem.call env e) (annot e)
+  | .mk c kw items addI cont props pats addP pn deps els, h => by
+    rw [Hyp] at h
+    obtain ⟨hnode, hi, ha, he⟩ := h
+    rw [annot]
+    unfold Elem.call
+    exact core_typed env c kw _ _ _ _ (callList_typed env items hi) (callAddl_typed env addI ha)
+      (callList_typed env els he) hnode
+theorem callList_typed (env : Env) : ∀ (es : List Elem), HypL es → All2 P (callList env es) (annotList es)
+  | [], _ => by rw [callList, annotList]; exact All2.nil
+  | e :: es, h => by
+    rw [HypL] at h
+    rw [callList, annotList]
+    exact All2.cons (call_typed env e h.1) (callList_typed env es h.2)
+theorem callAddl_typed (env : Env) : ∀ (o : Option Elem), HypO o → AddP (callAddl env o) (annotOpt o)
+  | none, _ => by rw [callAddl, annotOpt]; trivial
+  | some e, h => by
+    rw [HypO] at h
+    rw [callAddl, annotOpt]
+    exact call_typed env e h
+end
+
+/-- **Soundness of element annotations.**  For every element tree satisfying `Hyp`, every regex/format
+    environment and every passed value: whatever the call returns belongs to the element's annotation and is
+    not the not-passed marker. -/
+theorem C19_element_sound (env : Env) (e : Elem) (h : Hyp e) (v : JVal) (r : RVal)
+    (hr : e.call env (.val v) = .ok r) : r.hasType (annot e) = true ∧ r.isNP = false :=
+  call_typed env e h v r hr
+
+/-! ### the property wrapper -/
+
+/-- the default, when there is one, is valid for its own element (the property's own restriction) -/
+def DefaultValid (env : Env) (e : Elem) : Prop :=
+  ∀ d, e.kw.default = some d → ∃ r, e.call env (.val d) = .ok r
+
+theorem call_notPassed (env : Env) (e : Elem) :
+    e.call env .notPassed = (match e.kw.default with
+      | none => .ok .notPassed
+      | some d => match e.call env (.val d) with
+        | .ok r => .ok r
+        | .reject => .ok (.raw d)
+        | .crash => .crash) := by
+  cases e with
+  | mk c kw items addI cont props pats addP pn deps els =>
+    simp only [Elem.call, callCore, Elem.kw]
+    cases kw.default <;> rfl
+
+/-- **Soundness of property annotations.**  The value an attribute receives — from the supplied member, from a
+    valid default, or the not-passed marker — belongs to the annotation `_Property.annotation` prints; and when
+    that annotation has no `Maybe` (the property is required or defaulted) the attribute is never the marker,
+    provided a required property without default is actually supplied (which `Required` enforces, see
+    `required_supplied`). -/
+theorem C19_property_sound (env : Env) (k : Key) (e : Elem) (h : Hyp e) (hd : DefaultValid env e) (a : Arg) (r : RVal)
+    (hr : e.call env a = .ok r)
+    (hsupplied : k.required = true → e.kw.default = none → a ≠ .notPassed) :
+    r.hasType (propAnnot k e) = true ∧ ((k.required = true ∨ e.kw.default.isSome = true) → r.isNP = false) := by
+  cases a with
+  | val v =>
+    have := call_typed env e h v r hr
+    refine ⟨?_, fun _ => this.2⟩
+    unfold propAnnot
+    split
+    · exact this.1
+    · simp [RVal.hasType, this.1]
+  | notPassed =>
+    rw [call_notPassed] at hr
+    cases hdef : e.kw.default with
+    | none =>
+      rw [hdef] at hr
+      simp only [Res.ok.injEq] at hr
+      subst hr
+      have hreq : k.required = false := by
+        cases hk : k.required with
+        | false => rfl
+        | true => exact absurd rfl (hsupplied hk hdef)
+      refine ⟨by simp [propAnnot, hreq, hdef, RVal.hasType, RVal.isNP], fun hc => ?_⟩
+      rcases hc with hc | hc
+      · rw [hreq] at hc; cases hc
+      · cases hc
+    | some d =>
+      rw [hdef] at hr
+      simp only at hr
+      obtain ⟨r', hr'⟩ := hd d hdef
+      rw [hr'] at hr
+      simp only [Res.ok.injEq] at hr
+      subst hr
+      have := call_typed env e h d r' hr'
+      exact ⟨by simp [propAnnot, hdef, this.1], fun _ => this.2⟩
+
+/-- what `Required` enforces: on an accepted object every required property without default has its member
+    supplied (so `hsupplied` above is met by every model that was actually built) -/
+theorem required_supplied (kw : Kw) (props : List (Key × Option JVal)) (depNames : List (String × List String))
+    (kvs : List (String × JVal)) (hok : objChecks kw props depNames kvs = .pass)
+    (k : Key) (hk : (k, none) ∈ props) (hreq : k.required = true) : (JVal.keys kvs).contains k.src = true := by
+  unfold objChecks at hok
+  have h1 := V.ofBool_eq_pass.mp (V.and_eq_pass.mp hok).1
+  rw [List.all_eq_true] at h1
+  apply h1
+  unfold requiredNames
+  refine List.mem_append_right _ (List.mem_map.mpr ⟨(k, none), List.mem_filter.mpr ⟨hk, by simp [hreq]⟩, rfl⟩)
+
+/-! ### the hypothesis cannot be dropped: `AllOf` annotated with a non-first member (finding C19-allof-annotation) -/
+
+def qCls : Elem := .mk (.object "Q") { hasProps := true } [] none none
+  [({ name := "a", required := true, source := some "a" }, Elem.leaf .integer)] [] none none [] []
+def allOfBad : Elem := .mk .allOf {} [] none none [] [] none none [] [Elem.leaf .element { required := some ["a"] }, qCls]
+def envNone : Env := { re := fun _ _ => false, fmt := fun _ => none }
+
+theorem counter_allOf :
+    (annot allOfBad).show = "Q" ∧
+    (match allOfBad.call envNone (.val (.obj [("a", .num (.int 1))])) with
+     | .ok r => r.hasType (annot allOfBad) == false
+     | _ => false) = true := by decide +kernel
+
+/-- non-vacuity: a tree with tuple items, a union and a class satisfies `Hyp` and is called successfully -/
+def good : Elem := .mk .array { itemsKind := .tuple, addItemsB := false } [Elem.leaf .string, qCls] none none [] [] none none [] []
+example : (annot good).show = "List[Union[str, Q]]" := by decide +kernel
+example : (match good.call envNone (.val (.arr [.str "x", .obj [("a", .num (.int 1))]])) with
+    | .ok r => r.hasType (annot good)
+    | _ => false) = true := by decide +kernel
+
 end Statham.C19
